@@ -69,6 +69,8 @@ func (actorSelf *ActorDef[T]) Send(message T) {
 	}
 	verifPoint("actor.send.afterClosedCheck", actorSelf)
 
+	// Close() may close the channel after the check above: the message is dropped then
+	defer func() { recover() }()
 	actorSelf.ch <- message
 }
 
